@@ -13,7 +13,7 @@ class Refuse(Exception):
 _TOKEN = re.compile(
     r"""\s*(?:
       (?P<str>b?"(?:[^"\\]|\\.)*")
-    | (?P<chr>'(?:[^'\\]|\\.)')
+    | (?P<chr>'(?:[^'\\]|\\x[0-9a-fA-F]{2}|\\u\{[0-9a-fA-F]+\}|\\.)')
     | (?P<id>[A-Za-z_][A-Za-z_0-9]*)
     | (?P<num>[0-9][0-9A-Za-z_]*)
     | (?P<op>::|=>|->|==|!=|<=|>=|&&|\|\||\.\.|[{}()\[\];,.:=&|!?<>+\-*/%#@'^~$])
